@@ -291,7 +291,7 @@ def fixed_cases():
   one, two = const(V_int(1)), const(V_int(2))
   out = []
   rec = call('mkrec', [], [('x', one), ('y', const(V_str(lib14.MARKER))), ('f', const(V_fn('add'))),
-                           ('z', const(V_tup([V_int(7), V_int(8)])))], lazy=True)
+                           ('z', const(V_tup([V_int(7), V_int(8)]))), ('_u', const(V_tup([V_int(5), V_int(6)])))], lazy=True)
 
   def seq(ops, fn_max=128):
     return {'kind': 'seq', 'fn_max': fn_max, 'threads': [ops]}
@@ -307,6 +307,10 @@ def fixed_cases():
       {'op': 'chain', 'h': 2, 'links': [{'l': 'attr', 'name': 'q'}]},
       {'op': 'chain', 'h': 2, 'links': [{'l': 'attr', 'name': 'x'}, {'l': 'call', 'args': [], 'kw': []}]},
       {'op': 'chain', 'h': 2, 'links': []},
+      # single-underscore names are ordinary attributes of the remote object (seeded change C14-m7); an absent one fails remotely
+      {'op': 'chain', 'h': 2, 'links': [{'l': 'attr', 'name': '_u'}]},
+      {'op': 'chain', 'h': 2, 'links': [{'l': 'attr', 'name': '_u'}, {'l': 'item', 'key': V_int(-1)}]},
+      {'op': 'chain', 'h': 2, 'links': [{'l': 'attr', 'name': '_w'}]},
       {'op': 'call', 'prog': P_expr(rec), 'flags': {'return_exception': True, 'compress': True}},
   ]))
   # the two WF exclusions of C14_eval (known findings)
